@@ -410,7 +410,7 @@ class Ctx:
         return True
 
     # -- proofs ---------------------------------------------------------------------------
-    def check_proofs(self, prop_file=None, extra_files=()):
+    def check_proofs(self, prop_file=None, extra_files=(), report=True):
         """build Properties_<id>.vo (full .vo build), count obligations, collect axioms via
         Print Assumptions, scan sources for forbidden constructs.  Returns True iff all fine."""
         prop_file = prop_file or ("Properties_%s" % self.pid)
@@ -462,7 +462,7 @@ class Ctx:
                 if foreign:
                     allok = False
                     self.broken_theorem = "axioms outside the whitelist: " + ", ".join(foreign)
-        if not allok:
+        if not allok and report:
             self.violation({"broken": getattr(self, "broken_theorem", "?"), "kind": "theorem"},
                            "proof obligation no longer checks: " + getattr(self, "broken_theorem", "?"), no_input=True)
         return allok
